@@ -10,7 +10,8 @@ one < 256; `real t`: the token text; `dict kvs`: entries **in the order they wer
 the `HashMap` semantics (a later duplicate key replaces an earlier one, no order) is applied
 when the value is printed, see `Drv`).
 
-* `Integer Integer R` look-ahead: only when `0 ≤ i ≤ 9 999 999` and `0 ≤ gen ≤ 65535`, `R` is
+* `Integer Integer R` look-ahead (`intArm`): only when `0 ≤ i ≤ u32::MAX` (before the repair of
+  C09-F5: `9 999 999`, `intArmOld`) and `0 ≤ gen ≤ 65535`, `R` is
   whatever lexes as `Token::Name("R")` — a bare `R` **and also the name `/R`**.  An error while
   lexing the look-ahead tokens fails the whole parse.  Tokens pushed back = input not consumed.
 * after a dictionary the next token is inspected (comments are consumed, an error fails the
@@ -22,6 +23,31 @@ namespace OxiVerif.Model.ObjParser
 open OxiVerif.Spec.Syntax (Obj)
 open OxiVerif.Model.Lexer
 
+/-- The `Token::Integer` arm of `parse_from_token_with_options`, parametrised by what the
+    repairs changed: `maxObj` = upper end of the window in which `gen R` is looked for after the
+    integer; `anyR` = the third token may be *any* `Token::Name("R")`, also the one lexed from
+    the name `/R`. -/
+def intArmW (maxObj : Int) (anyR : Bool) (i : Int) (rest : List Nat) : Res (Obj × List Nat) :=
+  if !(0 ≤ i && i ≤ maxObj) then .ok (.int i, rest)
+  else
+    match next rest with
+    | .error e => .error e
+    | .ok (.int g, rest2) =>
+      if 0 ≤ g && g ≤ 65535 then
+        match next rest2 with
+        | .error e => .error e
+        | .ok (.name [82], rest3) =>
+          if anyR || bareRAhead rest2 then .ok (.ref i.toNat g.toNat, rest3) else .ok (.int i, rest)
+        | .ok _ => .ok (.int i, rest)
+      else .ok (.int i, rest)
+    | .ok _ => .ok (.int i, rest)
+
+/-- the arm as the code has it now: object numbers up to `u32::MAX` -/
+def intArm (i : Int) (rest : List Nat) : Res (Obj × List Nat) := intArmW 4294967295 true i rest
+
+/-- the arm before the repairs: window `0..=9999999` (C09-F5), any `Name("R")` (C09-F3) -/
+def intArmOld (i : Int) (rest : List Nat) : Res (Obj × List Nat) := intArmW 9999999 true i rest
+
 mutual
 /-- `parse_from_token_with_options` -/
 def parseFromToken : Nat → Token → List Nat → Res (Obj × List Nat)
@@ -30,19 +56,7 @@ def parseFromToken : Nat → Token → List Nat → Res (Obj × List Nat)
     match tok with
     | .null => .ok (.null, rest)
     | .bool b => .ok (.bool b, rest)
-    | .int i =>
-      if !(0 ≤ i && i ≤ 9999999) then .ok (.int i, rest)
-      else
-        match next rest with
-        | .error e => .error e
-        | .ok (.int g, rest2) =>
-          if 0 ≤ g && g ≤ 65535 then
-            match next rest2 with
-            | .error e => .error e
-            | .ok (.name [82], rest3) => .ok (.ref i.toNat g.toNat, rest3)
-            | .ok _ => .ok (.int i, rest)
-          else .ok (.int i, rest)
-        | .ok _ => .ok (.int i, rest)
+    | .int i => intArm i rest
     | .real t => .ok (.real t, rest)
     | .str s => .ok (.str s, rest)
     | .name n => .ok (.name n, rest)
